@@ -159,6 +159,7 @@ pub fn flavor_for(prop: &str) -> Flavor {
                 let mut p = Profile::mixed();
                 p.w_checkpoint = 8;
                 p.w_remount = if r.chance(1, 2) { 8 } else { 30 };
+                p.gambit_pct = 60;
                 p.w_settime = 5;
                 p.w_truncate = 10;
                 p.w_seek = 12;
